@@ -69,7 +69,7 @@ func checkC13(e *Env) {
 	// (e) key order on key positions
 	if mp != nil {
 		parity := gcfg{name: "key-position", assume: []gate.Assumption{{ProvPat: "(phi((↺ + const:1)|const:0) % const:2)", Value: "0"}}}
-		tCmp := "call:bytes.Compare(phi(alloc:[0]byte|slice(param:input,*)),slice(param:input,*))"
+		tCmp := "call:bytes.Compare(phi(alloc:[0]byte|*),slice(param:input,*))"
 		for _, b := range mp.Blocks {
 			if ifi, ok := b.Instrs[len(b.Instrs)-1].(*ssa.If); ok {
 				if c, ok := ifi.Cond.(*ssa.BinOp); ok && c.Op == token.LSS && strings.HasPrefix(prov.Of(c.Y), "(conv(call:cbor.unsignedIntegerDeterministic(") {
